@@ -85,6 +85,13 @@ def run_task(task):
             except Unsupported as e:
                 out["unsupported"] = f"{task['name']}: {e}"
                 return out
+            except Exception as e:
+                # the symbolic executor met code it cannot digest and failed inside its own machinery (e.g. a library model applied to values of an
+                # unexpected shape): nothing has been decided about this function - undecided (exit 2), with the trace for the maintainer; verdicts of
+                # the other functions and of the monitors stand
+                out["unsupported"] = (f"{task['name']}: the symbolic executor failed on this version of the function ({e.__class__.__name__}: "
+                                      f"{str(e)[:160]}) at {traceback.format_exc().strip().splitlines()[-3].strip()[:160]}")
+                return out
             out["stats"] = dict(ex.stats)
             out["assumed_used"] = sorted(ex.assumed_used)
             out["contracts_used"] = sorted(ex.contracts_used)
@@ -316,6 +323,12 @@ def main(argv=None):
                 violations.append(dict(name=f"bounded:{task['label']}/{v['what']}", replay=v.get("replay"), bounded=True, what=v["what"]))
             continue
         k_all = k_ok = 0
+        # a function listed under this property whose contract has no clause tagged for it (its clauses carry the ids of the properties they were
+        # first written for) serves the property with ALL its clauses: the plan says the property depends on that function
+        tagged = [r for r in out["results"] if r["kind"] != "canary" and (r.get("props") or [])]
+        if task["kind"] == "fn" and tagged and not any(args.prop in (r.get("props") or []) for r in tagged):
+            for r in tagged:
+                r["props"] = list(r["props"]) + [args.prop]
         for r in out["results"]:
             if r["kind"] == "canary":
                 # a call-site canary that is `unsat` on one path only says that this path is infeasible; the hypotheses of a
